@@ -57,6 +57,12 @@ func (e *Engine) stepValue(st *State, f *Frame, x ssa.Value, ins ssa.Instruction
 		cn := 0
 		if n.IsConst() {
 			cn = int(n.k)
+		} else {
+			v, ok := e.concretize(st, n, "makechan-cap")
+			if !ok {
+				return stDone
+			}
+			cn = int(v)
 		}
 		id := st.newObj(&ChanContent{capN: cn}, x.Type(), "chan")
 		f.regs[x] = &ChanVal{obj: id}
